@@ -372,7 +372,8 @@ def correspondence(ctx, sig_ok, problem, cfg, results, detail, which):
                 found_input=False)
 
 
-def check_pair(ctx, problem, cfg, kind, level=None, label='random'):
+def check_pair(ctx, problem, cfg, kind, level=None, label='random',
+               share=None):
     tree = problem['tree']
     h = tree['hierarchy']
     if kind == 'absent' and level is None:
@@ -381,7 +382,13 @@ def check_pair(ctx, problem, cfg, kind, level=None, label='random'):
             (kind == 'absent' and level in h) or \
             (kind == 'flatten_drop' and level == h[-1]):
         raise ValueError('bad %s level %r for hierarchy %r' % (kind, level, h))
-    detail = {'kind': kind, 'problem': problem, 'config': cfg, 'level': level}
+    if share is None:
+        # half of the pairs re-use ONE directory (same file paths, re-written
+        # between the two runs, in this same process), half of those with
+        # tmp_dir=None so that the files are read in place
+        share = [ctx.rng.random() < 0.5, ctx.rng.random() < 0.5]
+    detail = {'kind': kind, 'problem': problem, 'config': cfg, 'level': level,
+              'share': share}
     cfg_a, cfg_b, tree_b, markers_b = pair_setup(problem, cfg, kind, level)
     run_tree = tree_b if tree_b is not None else U.reduced_tree(
         tree, flatten=cfg_a['flatten'])
@@ -415,9 +422,17 @@ def check_pair(ctx, problem, cfg, kind, level=None, label='random'):
         ctx.count('flatten_drop:%s' % ('absent' if level not in h
                                        else level_class(tree, level)))
         ctx.count('flatten_drop:runners:%d' % cfg['n_runners_up'])
-    ra = U.run_problem(problem, cfg_a, want_trace=flat)
-    rb = U.run_problem(problem, cfg_b, tree=tree_b, markers=markers_b,
-                       want_trace=False)
+    import contextlib
+    from ctmverif import pipeline
+    ctx.count('pair:paths:%s' % ('shared' + ('' if share[1] else '+tmp_dir=None')
+                                 if share[0] else 'fresh'))
+    with (pipeline.workdir('ctmverif_ll_pair_') if share[0]
+          else contextlib.nullcontext(None)) as wd:
+        tmp = (not share[0]) or share[1]
+        ra = U.run_problem(problem, cfg_a, want_trace=flat, workdir=wd,
+                           tmp_dir=tmp)
+        rb = U.run_problem(problem, cfg_b, tree=tree_b, markers=markers_b,
+                           want_trace=False, workdir=wd, tmp_dir=tmp)
     if not ra['ok'] and not rb['ok']:
         # nothing to compare; that a valid problem is mapped at all is C01
         ctx.count('pair:both-fail:%s' % c01.error_class(ra['error']))
@@ -519,7 +534,7 @@ def replay(ctx, data, from_corpus=False):
     kind = d.get('kind')
     if kind in ('drop', 'flatten', 'absent', 'flatten_drop'):
         check_pair(ctx, d['problem'], d['config'], kind, d.get('level'),
-                   label='replay')
+                   label='replay', share=d.get('share'))
     elif kind == 'base':
         check_base(ctx, d['problem'], d['config'])
     elif not from_corpus:
